@@ -388,7 +388,7 @@ pub mod thread {
 
 pub mod sync {
     use super::*;
-    pub use std::sync::{Arc, LockResult, PoisonError, TryLockError, TryLockResult};
+    pub use std::sync::{mpsc, Arc, Barrier, LazyLock, LockResult, Once, OnceLock, PoisonError, TryLockError, TryLockResult, Weak};
 
     static NEXT_MUTEX_ID: std::sync::atomic::AtomicUsize = std::sync::atomic::AtomicUsize::new(1);
 
@@ -569,49 +569,330 @@ pub mod sync {
         }
     }
 
+    /// Reader-writer lock with the std API.  Scheduler-level ownership is EXCLUSIVE for readers
+    /// too (a conservative model: every interleaving it allows is allowed by std's lock; two
+    /// simultaneous readers are not explored).
+    pub struct RwLock<T> {
+        m: Mutex<()>,
+        inner: std::sync::RwLock<T>,
+    }
+    pub struct RwLockReadGuard<'a, T> {
+        inner: Option<std::sync::RwLockReadGuard<'a, T>>,
+        _own: Option<MutexGuard<'a, ()>>,
+    }
+    pub struct RwLockWriteGuard<'a, T> {
+        inner: Option<std::sync::RwLockWriteGuard<'a, T>>,
+        _own: Option<MutexGuard<'a, ()>>,
+    }
+    impl<T> RwLock<T> {
+        pub const fn new(value: T) -> Self {
+            RwLock { m: Mutex::new(()), inner: std::sync::RwLock::new(value) }
+        }
+        fn own(&self) -> MutexGuard<'_, ()> {
+            match self.m.lock() {
+                Ok(g) => g,
+                Err(p) => p.into_inner(),
+            }
+        }
+        pub fn read(&self) -> LockResult<RwLockReadGuard<'_, T>> {
+            let own = self.own();
+            match self.inner.read() {
+                Ok(g) => Ok(RwLockReadGuard { inner: Some(g), _own: Some(own) }),
+                Err(p) => Err(PoisonError::new(RwLockReadGuard { inner: Some(p.into_inner()), _own: Some(own) })),
+            }
+        }
+        pub fn write(&self) -> LockResult<RwLockWriteGuard<'_, T>> {
+            let own = self.own();
+            match self.inner.write() {
+                Ok(g) => Ok(RwLockWriteGuard { inner: Some(g), _own: Some(own) }),
+                Err(p) => Err(PoisonError::new(RwLockWriteGuard { inner: Some(p.into_inner()), _own: Some(own) })),
+            }
+        }
+        pub fn is_poisoned(&self) -> bool {
+            self.inner.is_poisoned()
+        }
+        pub fn clear_poison(&self) {
+            self.inner.clear_poison()
+        }
+        pub fn get_mut(&mut self) -> LockResult<&mut T> {
+            self.inner.get_mut()
+        }
+        pub fn into_inner(self) -> LockResult<T> {
+            self.inner.into_inner()
+        }
+    }
+    impl<T: Default> Default for RwLock<T> {
+        fn default() -> Self {
+            RwLock::new(T::default())
+        }
+    }
+    impl<T> std::fmt::Debug for RwLock<T> {
+        fn fmt(&self, f: &mut std::fmt::Formatter<'_>) -> std::fmt::Result {
+            f.write_str("simsched::RwLock")
+        }
+    }
+    impl<T> Drop for RwLockReadGuard<'_, T> {
+        fn drop(&mut self) {
+            // the std guard first (poisoning semantics are std's), then scheduler-level ownership
+            self.inner.take();
+            self._own.take();
+        }
+    }
+    impl<T> Drop for RwLockWriteGuard<'_, T> {
+        fn drop(&mut self) {
+            self.inner.take();
+            self._own.take();
+        }
+    }
+    impl<T> std::ops::Deref for RwLockReadGuard<'_, T> {
+        type Target = T;
+        fn deref(&self) -> &T {
+            self.inner.as_ref().unwrap()
+        }
+    }
+    impl<T> std::ops::Deref for RwLockWriteGuard<'_, T> {
+        type Target = T;
+        fn deref(&self) -> &T {
+            self.inner.as_ref().unwrap()
+        }
+    }
+    impl<T> std::ops::DerefMut for RwLockWriteGuard<'_, T> {
+        fn deref_mut(&mut self) -> &mut T {
+            self.inner.as_mut().unwrap()
+        }
+    }
+    impl<T> std::fmt::Debug for RwLockReadGuard<'_, T> {
+        fn fmt(&self, f: &mut std::fmt::Formatter<'_>) -> std::fmt::Result {
+            f.write_str("simsched::RwLockReadGuard")
+        }
+    }
+    impl<T> std::fmt::Debug for RwLockWriteGuard<'_, T> {
+        fn fmt(&self, f: &mut std::fmt::Formatter<'_>) -> std::fmt::Result {
+            f.write_str("simsched::RwLockWriteGuard")
+        }
+    }
+
     pub mod atomic {
         pub use std::sync::atomic::Ordering;
 
-        /// Sequentially consistent by construction: one thread runs at a time and every
-        /// operation is a scheduling point.
-        pub struct AtomicUsize {
-            v: std::sync::atomic::AtomicUsize,
+        pub fn fence(o: Ordering) {
+            crate::point(5);
+            std::sync::atomic::fence(o)
+        }
+        pub fn compiler_fence(o: Ordering) {
+            std::sync::atomic::compiler_fence(o)
         }
 
-        impl AtomicUsize {
-            pub const fn new(v: usize) -> Self {
-                AtomicUsize { v: std::sync::atomic::AtomicUsize::new(v) }
+        /// Sequentially consistent by construction: one thread runs at a time and every
+        /// operation is a scheduling point (a `fetch_update` is one per attempt).
+        macro_rules! sim_atomic_int {
+            ($name:ident, $t:ty) => {
+                pub struct $name {
+                    v: std::sync::atomic::$name,
+                }
+                impl $name {
+                    pub const fn new(v: $t) -> Self {
+                        $name { v: std::sync::atomic::$name::new(v) }
+                    }
+                    pub fn load(&self, o: Ordering) -> $t {
+                        crate::point(4);
+                        self.v.load(o)
+                    }
+                    pub fn store(&self, x: $t, o: Ordering) {
+                        crate::point(5);
+                        self.v.store(x, o)
+                    }
+                    pub fn swap(&self, x: $t, o: Ordering) -> $t {
+                        crate::point(5);
+                        self.v.swap(x, o)
+                    }
+                    pub fn compare_exchange(&self, cur: $t, new: $t, s: Ordering, f: Ordering) -> Result<$t, $t> {
+                        crate::point(5);
+                        self.v.compare_exchange(cur, new, s, f)
+                    }
+                    pub fn compare_exchange_weak(&self, cur: $t, new: $t, s: Ordering, f: Ordering) -> Result<$t, $t> {
+                        crate::point(5);
+                        self.v.compare_exchange(cur, new, s, f)
+                    }
+                    pub fn fetch_add(&self, x: $t, o: Ordering) -> $t {
+                        crate::point(5);
+                        self.v.fetch_add(x, o)
+                    }
+                    pub fn fetch_sub(&self, x: $t, o: Ordering) -> $t {
+                        crate::point(5);
+                        self.v.fetch_sub(x, o)
+                    }
+                    pub fn fetch_and(&self, x: $t, o: Ordering) -> $t {
+                        crate::point(5);
+                        self.v.fetch_and(x, o)
+                    }
+                    pub fn fetch_or(&self, x: $t, o: Ordering) -> $t {
+                        crate::point(5);
+                        self.v.fetch_or(x, o)
+                    }
+                    pub fn fetch_xor(&self, x: $t, o: Ordering) -> $t {
+                        crate::point(5);
+                        self.v.fetch_xor(x, o)
+                    }
+                    pub fn fetch_nand(&self, x: $t, o: Ordering) -> $t {
+                        crate::point(5);
+                        self.v.fetch_nand(x, o)
+                    }
+                    pub fn fetch_max(&self, x: $t, o: Ordering) -> $t {
+                        crate::point(5);
+                        self.v.fetch_max(x, o)
+                    }
+                    pub fn fetch_min(&self, x: $t, o: Ordering) -> $t {
+                        crate::point(5);
+                        self.v.fetch_min(x, o)
+                    }
+                    pub fn fetch_update<F: FnMut($t) -> Option<$t>>(&self, s: Ordering, f: Ordering, mut g: F) -> Result<$t, $t> {
+                        // load and compare-exchange are separate scheduling points, as on hardware
+                        let mut prev = self.load(f);
+                        while let Some(next) = g(prev) {
+                            match self.compare_exchange_weak(prev, next, s, f) {
+                                x @ Ok(_) => return x,
+                                Err(now) => prev = now,
+                            }
+                        }
+                        Err(prev)
+                    }
+                    pub fn get_mut(&mut self) -> &mut $t {
+                        self.v.get_mut()
+                    }
+                    pub fn into_inner(self) -> $t {
+                        self.v.into_inner()
+                    }
+                    pub fn as_ptr(&self) -> *mut $t {
+                        self.v.as_ptr()
+                    }
+                }
+                impl Default for $name {
+                    fn default() -> Self {
+                        $name::new(0)
+                    }
+                }
+                impl From<$t> for $name {
+                    fn from(v: $t) -> Self {
+                        $name::new(v)
+                    }
+                }
+                impl std::fmt::Debug for $name {
+                    fn fmt(&self, f: &mut std::fmt::Formatter<'_>) -> std::fmt::Result {
+                        // no scheduling point in formatting paths
+                        write!(f, "{:?}", self.v)
+                    }
+                }
+            };
+        }
+        sim_atomic_int!(AtomicUsize, usize);
+        sim_atomic_int!(AtomicIsize, isize);
+        sim_atomic_int!(AtomicU8, u8);
+        sim_atomic_int!(AtomicU16, u16);
+        sim_atomic_int!(AtomicU32, u32);
+        sim_atomic_int!(AtomicU64, u64);
+        sim_atomic_int!(AtomicI8, i8);
+        sim_atomic_int!(AtomicI16, i16);
+        sim_atomic_int!(AtomicI32, i32);
+        sim_atomic_int!(AtomicI64, i64);
+
+        pub struct AtomicBool {
+            v: std::sync::atomic::AtomicBool,
+        }
+        impl AtomicBool {
+            pub const fn new(v: bool) -> Self {
+                AtomicBool { v: std::sync::atomic::AtomicBool::new(v) }
             }
-            pub fn load(&self, o: Ordering) -> usize {
+            pub fn load(&self, o: Ordering) -> bool {
                 crate::point(4);
                 self.v.load(o)
             }
-            pub fn store(&self, x: usize, o: Ordering) {
+            pub fn store(&self, x: bool, o: Ordering) {
                 crate::point(5);
                 self.v.store(x, o)
             }
-            pub fn fetch_add(&self, x: usize, o: Ordering) -> usize {
-                crate::point(5);
-                self.v.fetch_add(x, o)
-            }
-            pub fn fetch_sub(&self, x: usize, o: Ordering) -> usize {
-                crate::point(5);
-                self.v.fetch_sub(x, o)
-            }
-            pub fn swap(&self, x: usize, o: Ordering) -> usize {
+            pub fn swap(&self, x: bool, o: Ordering) -> bool {
                 crate::point(5);
                 self.v.swap(x, o)
             }
-            pub fn compare_exchange(&self, cur: usize, new: usize, s: Ordering, f: Ordering) -> Result<usize, usize> {
+            pub fn compare_exchange(&self, cur: bool, new: bool, s: Ordering, f: Ordering) -> Result<bool, bool> {
                 crate::point(5);
                 self.v.compare_exchange(cur, new, s, f)
             }
-            pub fn fetch_max(&self, x: usize, o: Ordering) -> usize {
+            pub fn compare_exchange_weak(&self, cur: bool, new: bool, s: Ordering, f: Ordering) -> Result<bool, bool> {
                 crate::point(5);
-                self.v.fetch_max(x, o)
+                self.v.compare_exchange(cur, new, s, f)
             }
-            pub fn into_inner(self) -> usize {
+            pub fn fetch_and(&self, x: bool, o: Ordering) -> bool {
+                crate::point(5);
+                self.v.fetch_and(x, o)
+            }
+            pub fn fetch_or(&self, x: bool, o: Ordering) -> bool {
+                crate::point(5);
+                self.v.fetch_or(x, o)
+            }
+            pub fn fetch_xor(&self, x: bool, o: Ordering) -> bool {
+                crate::point(5);
+                self.v.fetch_xor(x, o)
+            }
+            pub fn fetch_nand(&self, x: bool, o: Ordering) -> bool {
+                crate::point(5);
+                self.v.fetch_nand(x, o)
+            }
+            pub fn fetch_update<F: FnMut(bool) -> Option<bool>>(&self, s: Ordering, f: Ordering, mut g: F) -> Result<bool, bool> {
+                let mut prev = self.load(f);
+                while let Some(next) = g(prev) {
+                    match self.compare_exchange_weak(prev, next, s, f) {
+                        x @ Ok(_) => return x,
+                        Err(now) => prev = now,
+                    }
+                }
+                Err(prev)
+            }
+            pub fn get_mut(&mut self) -> &mut bool {
+                self.v.get_mut()
+            }
+            pub fn into_inner(self) -> bool {
                 self.v.into_inner()
+            }
+        }
+        impl Default for AtomicBool {
+            fn default() -> Self {
+                AtomicBool::new(false)
+            }
+        }
+        impl std::fmt::Debug for AtomicBool {
+            fn fmt(&self, f: &mut std::fmt::Formatter<'_>) -> std::fmt::Result {
+                write!(f, "{:?}", self.v)
+            }
+        }
+
+        pub struct AtomicPtr<T> {
+            v: std::sync::atomic::AtomicPtr<T>,
+        }
+        impl<T> AtomicPtr<T> {
+            pub const fn new(p: *mut T) -> Self {
+                AtomicPtr { v: std::sync::atomic::AtomicPtr::new(p) }
+            }
+            pub fn load(&self, o: Ordering) -> *mut T {
+                crate::point(4);
+                self.v.load(o)
+            }
+            pub fn store(&self, x: *mut T, o: Ordering) {
+                crate::point(5);
+                self.v.store(x, o)
+            }
+            pub fn swap(&self, x: *mut T, o: Ordering) -> *mut T {
+                crate::point(5);
+                self.v.swap(x, o)
+            }
+            pub fn compare_exchange(&self, cur: *mut T, new: *mut T, s: Ordering, f: Ordering) -> Result<*mut T, *mut T> {
+                crate::point(5);
+                self.v.compare_exchange(cur, new, s, f)
+            }
+            pub fn compare_exchange_weak(&self, cur: *mut T, new: *mut T, s: Ordering, f: Ordering) -> Result<*mut T, *mut T> {
+                crate::point(5);
+                self.v.compare_exchange(cur, new, s, f)
             }
         }
     }
